@@ -503,7 +503,7 @@ def check_loop_frame(eng, q, k, spec, heap0, s):
         base = heap0.get(key)
         if base is None or arr.eq(base):
             continue
-        if key in allowed:
+        if key in allowed or key in getattr(eng.reg, "auto_keys", ()):
             continue
         objs = [o for (kk, o) in [a for a in allowed if isinstance(a, tuple)] if kk == key]
         r = z3.Int("fr_r")
